@@ -73,7 +73,9 @@ class C17(Prop):
         for d in good[:2] + bad[:1] + bad[3:]:
             g.append(("rd", rng.choice(["-rd", "--receive-directory"]), d))
         g += [("up", rng.choice(["-u", "--upload"])), ("down", rng.choice(["-d", "--download"])), ("keep", "--keep-on-error"),
-              ("help", rng.choice(["-h", "--help"])), ("file", "a.txt"), ("file", "/abs\\path/x"), ("file", "\\\\srv\\f"), ("file", "-z"), ("file", "")]
+              ("help", rng.choice(["-h", "--help"])), ("file", "a.txt"), ("file", "/abs\\path/x"), ("file", "\\\\srv\\f"), ("file", "-z"), ("file", ""),
+              # letters of either case are part of the name; upper-case look-alikes of flags are names too
+              ("file", "Firmware.BIN"), ("file", "README"), ("file", "-U"), ("file", "--PORT"), ("file", "-RD")]
         return g
 
     def line(self, kind, groups, dangling=None):
